@@ -11,7 +11,10 @@ import (
 	"strings"
 	"testing"
 
+	"github.com/btcsuite/btcd/wire/v2"
+	"github.com/lightningnetwork/lnd/channeldb"
 	"github.com/lightningnetwork/lnd/internal/verif/vstats"
+	"github.com/lightningnetwork/lnd/lnwallet"
 )
 
 func c13ReproScenario() (*ccScenario, *c13Plan) {
@@ -98,4 +101,65 @@ func TestVerifC13ReproRestartInContractClosed(t *testing.T) {
 func TestVerifC13ReproResolvedCheckpoint(t *testing.T) {
 	c13ReproRun(t, c13KeyResolvedNotDeleted,
 		"Checkpoint(*contractcourt.commitSweepResolver,resolved)", 1)
+}
+
+// Observation (not part of the C13 verdict, always passes): an outgoing
+// contest resolver on the peer's commitment whose HTLC already expired offers
+// the timeout sweep from Launch while it is still a contest resolver; if that
+// sweep confirms before Resolve has processed a block epoch, Resolve takes
+// our own timeout spend for the peer's preimage spend and claimCleanUp
+// indexes the witness out of range.
+func TestVerifC13ReproContestOwnSweepPanic(t *testing.T) {
+	x := c12ReproHTLC(1, false, 690)
+	x.On[ccL], x.On[ccR] = true, true
+	x.Out[ccL], x.Out[ccR] = 0, 0
+	sc := &ccScenario{HTLCs: []ccHTLC{x}, Base: 700, DeltaOut: 10,
+		DeltaIn: 10}
+
+	w := newCcWorld(700)
+	w.eager = true
+	inc := w.newInc()
+	arb, _, err := ccBuildArb(t, sc, inc, sc.htlcSets(), c12MemLog)
+	if err != nil {
+		t.Fatalf("build: %v", err)
+	}
+	defer ccStop(arb)
+
+	hr, _, _ := sc.resolutions(ccR)
+	var res lnwallet.OutgoingHtlcResolution = hr.OutgoingHTLCs[0]
+	resCfg := ResolverConfig{
+		ChannelArbitratorConfig: arb.cfg,
+		Checkpoint: func(ContractResolver,
+			...*channeldb.ResolverReport) error {
+
+			return nil
+		},
+	}
+	r := newOutgoingContestResolver(
+		res, 700, sc.htlcs(ccR)[0], channeldb.SingleFunderTweaklessBit,
+		resCfg,
+	)
+	if err := r.Launch(); err != nil {
+		t.Fatalf("launch: %v", err)
+	}
+	// The sweeper's timeout transaction confirms.
+	if key := w.pumpOne(inc); !strings.HasPrefix(key, "4sweep") {
+		t.Fatalf("expected a sweep request from Launch, pumped %q", key)
+	}
+	op := wire.OutPoint{Hash: ccCommitHash(ccR), Index: 0}
+	if _, ok := w.spent[op]; !ok {
+		t.Fatalf("htlc output not spent by the timeout sweep")
+	}
+
+	var panicked any
+	func() {
+		defer func() { panicked = recover() }()
+		_, err = r.Resolve()
+	}()
+	if panicked != nil {
+		t.Logf("OBSERVATION: htlcOutgoingContestResolver.Resolve "+
+			"panicked on our own timeout spend: %v", panicked)
+	} else {
+		t.Logf("no panic (err=%v)", err)
+	}
 }
